@@ -152,9 +152,11 @@ VDIM_SETS = {
 }
 
 
-def draw_vdims_mapping(rng, nvdim, dims, p_unmapped=0.15):
+def draw_vdims_mapping(rng, nvdim, dims, p_unmapped=0.15, p_scalar_label=0.0):
     """Component labels and a (default / permuted / partial) component-to-axis map."""
     if nvdim == 1:
+        if p_scalar_label and rng.random() < p_scalar_label:
+            return [rng.choice(["s", "T", "rho"])], None  # a one-component field may carry a label, too
         return None, None
     vd = rng.choice(VDIM_SETS[nvdim])
     names = vd or (["x", "y", "z"][:nvdim] if nvdim <= 3 else [f"v{i}" for i in range(nvdim)])
@@ -182,10 +184,10 @@ def draw_value_spec(rng, dtype, family="idx"):
     return {"kind": "rint", "seed": rng.randrange(2**31), "lo": -8, "hi": 9, "step": rng.choice([1.0, 0.5, 0.25])}
 
 
-def draw_field_new(rng, slot_mesh, out, mesh_m, nvdim=None, dtypes=(None, None, None, "float", "int"), p_valid=0.6, unit_p=0.3, p_unmapped=0.15):
+def draw_field_new(rng, slot_mesh, out, mesh_m, nvdim=None, dtypes=(None, None, None, "float", "int"), p_valid=0.6, unit_p=0.3, p_unmapped=0.15, p_scalar_label=0.0):
     nvdim = nvdim or rng.choice([1, 1, 2, 3, 3, 4])
     dt = rng.choice(list(dtypes))
-    vd, mp = draw_vdims_mapping(rng, nvdim, mesh_m.region.dims, p_unmapped)
+    vd, mp = draw_vdims_mapping(rng, nvdim, mesh_m.region.dims, p_unmapped, p_scalar_label)
     o = {
         "op": "Field.new",
         "on": slot_mesh,
